@@ -241,7 +241,7 @@ func runC14(c *core.Ctx) {
 func init() {
 	core.Register(&core.Property{
 		ID: "C14", Engine: "G", Level: "exploration", Bubble: true,
-		Rule: "each run: a verified real BitcoinNode (transaction manager present/absent, block requested/not) receives 1-12 tape-generated well-formed messages over the whole command set (handled and unhandled commands, classic and extended framing for tx/block/unknown, empty and full headers/inv/addr, requested and unrequested blocks, payloads up to 64 B / 2 kB / 70 kB, thorough: 4 MB) fragmented and delayed by the tape, then a ping with a fresh nonce; must-stay-connected sequences must yield the pong within 10 simulated minutes; after a may-disconnect message (second protoconf, pong with a foreign nonce, addr > 1000, headers that do not connect) pong or orderly close, never a payload parsed as a header; non-trivial = every run; distinct = distinct hash of the canonical event log",
+		Rule: "each run: a verified real BitcoinNode (transaction manager present/absent, block requested/not) receives 1-12 tape-generated well-formed messages over the whole command set (handled and unhandled commands, classic and extended framing for tx/block/unknown, empty and full headers/inv/addr, requested and unrequested blocks, payloads up to 64 B / 2 kB / 70 kB, thorough: 4 MB) fragmented and delayed by the tape, then a ping with a fresh nonce; must-stay-connected sequences must yield the pong within 10 simulated minutes; after a may-disconnect message (second protoconf, pong with a foreign nonce, addr > 1000, headers that do not connect) pong or orderly close, never a payload parsed as a header; non-trivial = every run; distinct = distinct hash of the canonical event log Engine F phase (second search phase, instrumented build, see DESIGN.md 2.4): the same world with the node's goroutines (read loop, per-message handler goroutines, handshake and verification, ping loop, outgoing queue) under the tape's statement-level scheduler between the delivered chunks; a stalled goroutine resumes when nothing else can run; everything runs to rest before the state is judged",
 		Real: nodeReal, Stub: nodeStub,
 		Assumptions:  []string{"goroutine order between two quiescent points is the Go runtime's (GOMAXPROCS=1 in workers); the oracle is order independent"},
 		FaultKinds:   []string{"fragmentation", "delivery-delay"},
